@@ -9,7 +9,7 @@ The msgid, plural and context are the strings the evaluator passes to that funct
 occurrence is referenced …, and calls whose msgid argument is not a literal, or that have too few arguments,
 add nothing."
 
-OBLIGATIONS: XT.mem_calls_iff, XT.mem_doExtract_iff, XT.mem_extractCall_iff, XT.mem_extract_iff, XT.mergeBy_inv, XT.mem_mergeBy_iff, XT.mem_keys_mergeBy_iff, XT.save_eq_of_no_header_key, XT.goKey_eq_headerKey_iff, XT.goKey_inj, XT.parseInt_toDigits, XT.parseKeywords_cons, C14.decode_encode_dq, C14.decode_encode_sq, C14.decode_encode_raw, C14.sq2dq_correct
+OBLIGATIONS: XT.mem_calls_iff, XT.mem_doExtract_iff, XT.doExtract_id_zero, XT.mem_extractCall_iff, XT.mem_extract_iff, XT.mergeBy_inv, XT.mem_mergeBy_iff, XT.mem_keys_mergeBy_iff, XT.save_eq_of_no_header_key, XT.goKey_eq_headerKey_iff, XT.goKey_inj, XT.parseInt_toDigits, XT.parseKeywords_cons, C14.decode_encode_dq, C14.decode_encode_sq, C14.decode_encode_raw, C14.sq2dq_correct
 
 Property theorems only; the model is `TplModel/Sys/Xtpl.lean` (namespace `XT`), the lemmas are in
 `TplModel/Proofs/XtplProofs.lean`. Every statement holds for ALL expressions, ALL keyword tables and ALL
@@ -20,15 +20,13 @@ Vocabulary (model / proofs file):
 the nodes `.call …` that occur in `e`, `Sub`);
 `pos n i` = the reference (`file:line:col`) of argument `i` (1-based) of the `n`-th call node;
 `litAt args i` = the decoded string literal at position `i` (`""` if `i = 0` or that argument is not a literal);
-`entryOf kw args s o` = ⟨litAt args kw.ctx, s, litAt args kw.plural, o, cited⟩;
-`entryNoId kw args` = ⟨litAt args kw.ctx, "", litAt args kw.plural, –, not cited⟩ (only for `kw.id = 0`).
+`entryOf kw args s o` = ⟨litAt args kw.ctx, s, litAt args kw.plural, o, cited⟩.
 
-FINDING recorded here (`header_replaced_by_position_zero`): `-keywords 'T:0'` (also `T:-1`, `X:1c,0`) is
-accepted by `parseKeywords`; with such a keyword `doExtract` appends an entry without msgid and without
-reference for EVERY call `T(…)` with at least one argument, and `Save` replaces the POT header by it (reproduced
-on the binary built from HEAD). The header theorems (and the C20 wording of soundness) therefore carry
-`∀ kw ∈ kws, 1 ≤ kw.id` and are named `…_partial`; the hypothesis holds for the default flag
-(`default_keywords_wf`). `extract_sound` / `mem_extract_iff` are exact for ALL tables (they list that case). -/
+HISTORY: `-keywords 'T:0'` (also `T:-1`, `X:1c,0`) is accepted by `parseKeywords`; before the fix of `doExtract`
+(`kw.MsgID < 1` ⇒ return) such a keyword appended an entry without msgid and without reference for every call
+`T(…)`, and `Save` replaced the POT header by it. At HEAD a keyword without msgid position adds nothing
+(`position_zero_adds_nothing`), so `extract_sound`, `extract_cited`, `header_never_replaced` and `header_kept` hold
+for ALL keyword tables (no well-formedness hypothesis). -/
 namespace C20
 open XT EL
 
@@ -126,10 +124,11 @@ example : parseKeywords "a:1c,2,3,4" = none := by decide         -- too many pos
 example : parseKeywords "a:1_0" = none := by decide              -- no `_` in base 10
 example : parseKeywords "a:9223372036854775808" = none := by decide   -- out of range
 example : parseKeywords "a:+2" = some [⟨"a", 0, 2, 0⟩] := by decide  -- ParseInt accepts a sign
-example : parseKeywords "a:0" = some [⟨"a", 0, 0, 0⟩] := by decide   -- accepted: see the finding below
+example : parseKeywords "a:0" = some [⟨"a", 0, 0, 0⟩] := by decide   -- accepted: `position_zero_adds_nothing`
 example : parseKeywords "a:-3" = some [⟨"a", 0, 0, 0⟩] := by decide  -- negative = no position
 
-/-- every keyword of the default table has a msgid position -/
+/-- every keyword of the default table has a msgid position (so none of them is silenced by
+    `position_zero_adds_nothing`) -/
 theorem default_keywords_wf : ∀ kw ∈ defaultKws, 1 ≤ kw.id := by decide
 
 /-! ## `calls`: the nodes the listener sees -/
@@ -150,27 +149,20 @@ example : calls nested =
 theorem mem_extract_iff (kws : List Keyword) (pos : Nat → Nat → Nat) (e : E) (x : Entry) :
     x ∈ extract kws pos e ↔
       ∃ n callee args ell kw, (calls e)[n]? = some (.call callee args ell) ∧ kw ∈ kws ∧
-        fnName callee = some kw.name ∧ args ≠ [] ∧ kw.maxArg ≤ args.length ∧
-        ((kw.id = 0 ∧ x = entryNoId kw args) ∨
-         (1 ≤ kw.id ∧ ∃ a s, args[kw.id - 1]? = some a ∧ strLit a = some s ∧
-            ¬ (s = "" ∧ litAt args kw.ctx = "") ∧ x = entryOf kw args s (pos n kw.id))) := by
+        fnName callee = some kw.name ∧ args ≠ [] ∧ kw.maxArg ≤ args.length ∧ 1 ≤ kw.id ∧
+        ∃ a s, args[kw.id - 1]? = some a ∧ strLit a = some s ∧
+          ¬ (s = "" ∧ litAt args kw.ctx = "") ∧ x = entryOf kw args s (pos n kw.id) := by
   rw [XT.mem_extract_iff]
   constructor
   · rintro ⟨n, c, hc, hx⟩
     obtain ⟨f, as, ell, rfl, hx⟩ := mem_extractNode_iff.1 hx
     obtain ⟨fn, hfn, hne, kw, hkw, hx⟩ := mem_extractCall_iff.1 hx
-    obtain ⟨hname, hmax, hx⟩ := mem_doExtract_iff.1 hx
-    refine ⟨n, f, as, ell, kw, hc, hkw, by rw [hfn, hname], hne, hmax, ?_⟩
-    rcases hx with hx | ⟨hid, s, hs, hne', rfl⟩
-    · exact .inl hx
-    · obtain ⟨a, ha, hs⟩ := litAt?_eq.1 hs
-      exact .inr ⟨hid, a, s, ha, hs, hne', rfl⟩
-  · rintro ⟨n, f, as, ell, kw, hc, hkw, hfn, hne, hmax, hx⟩
+    obtain ⟨hname, hmax, hid, s, hs, hne', rfl⟩ := mem_doExtract_iff.1 hx
+    obtain ⟨a, ha, hs⟩ := litAt?_eq.1 hs
+    exact ⟨n, f, as, ell, kw, hc, hkw, by rw [hfn, hname], hne, hmax, hid, a, s, ha, hs, hne', rfl⟩
+  · rintro ⟨n, f, as, ell, kw, hc, hkw, hfn, hne, hmax, hid, a, s, ha, hs, hne', rfl⟩
     refine ⟨n, _, hc, mem_extractNode_iff.2 ⟨f, as, ell, rfl, mem_extractCall_iff.2 ⟨kw.name, hfn, hne, kw, hkw, ?_⟩⟩⟩
-    refine mem_doExtract_iff.2 ⟨rfl, hmax, ?_⟩
-    rcases hx with hx | ⟨hid, a, s, ha, hs, hne', rfl⟩
-    · exact .inl hx
-    · exact .inr ⟨hid, s, litAt?_eq.2 ⟨a, ha, hs⟩, hne', rfl⟩
+    exact mem_doExtract_iff.2 ⟨rfl, hmax, hid, s, litAt?_eq.2 ⟨a, ha, hs⟩, hne', rfl⟩
 
 /-- COMPLETENESS: every call node of `e` (the `n`-th one) whose callee name is a keyword, with enough arguments,
     a string literal `s` at the msgid position, and not (empty msgid and empty context) yields the entry with that
@@ -184,7 +176,7 @@ theorem extract_complete (kws : List Keyword) (pos : Nat → Nat → Nat) (e : E
     (hne : ¬ (s = "" ∧ litAt args kw.ctx = "")) :
     entryOf kw args s (pos n kw.id) ∈ extract kws pos e := by
   refine (mem_extract_iff kws pos e _).2 ⟨n, callee, args, ell, kw, hc, hkw, hfn, ?_, (maxArg_le_iff kw _).2 hmax,
-    .inr ⟨hid, a, s, ha, hs, hne, rfl⟩⟩
+    hid, a, s, ha, hs, hne, rfl⟩
   rintro rfl; simp at ha
 
 /-- the same for a call node given as a sub-expression -/
@@ -211,38 +203,34 @@ theorem entryOf_fields (kw : Keyword) (args : List E) (s : String) (o : Nat) :
   ⟨rfl, rfl, rfl, rfl, rfl, fun _ _ _ hi ha ht => litAt_lit hi ha ht, fun _ _ ha hn => litAt_nonlit ha hn,
     litAt_zero args⟩
 
-/-- SOUNDNESS: every extracted entry comes from a call node whose callee name is a keyword and which has at least
-    one and at least `MaxArgIndex` arguments; if the keyword has a msgid position the argument there is a string
-    literal, the entry is the one of `extract_complete`, and it is not (empty msgid, empty context).
-    (A keyword WITHOUT msgid position — `T:0` — yields an entry without msgid and reference: see the finding.) -/
+/-- SOUNDNESS, as C20 words it, for ALL keyword tables: every extracted entry comes from a call node whose callee
+    name is a keyword WITH a msgid position and which has at least one and at least `MaxArgIndex` arguments; the
+    argument at the msgid position is a string literal, the entry is the one of `extract_complete`, and it is not
+    the reserved (empty msgid, empty context) -/
 theorem extract_sound (kws : List Keyword) (pos : Nat → Nat → Nat) (e : E) (x : Entry)
     (h : x ∈ extract kws pos e) :
-    ∃ n callee args ell kw, (calls e)[n]? = some (.call callee args ell) ∧ kw ∈ kws ∧
-      fnName callee = some kw.name ∧ args ≠ [] ∧
-      (kw.ctx ≤ args.length ∧ kw.id ≤ args.length ∧ kw.plural ≤ args.length) ∧
-      ((kw.id = 0 ∧ x = entryNoId kw args) ∨
-       (1 ≤ kw.id ∧ ∃ a s, args[kw.id - 1]? = some a ∧ strLit a = some s ∧
-          ¬ (s = "" ∧ litAt args kw.ctx = "") ∧ x = entryOf kw args s (pos n kw.id))) := by
-  obtain ⟨n, f, as, ell, kw, hc, hkw, hfn, hne, hmax, hx⟩ := (mem_extract_iff kws pos e x).1 h
-  exact ⟨n, f, as, ell, kw, hc, hkw, hfn, hne, (maxArg_le_iff kw _).1 hmax, hx⟩
-
-/-- soundness as C20 words it ("every entry comes from a keyword call with a literal msgid"), for keyword tables
-    in which every keyword has a msgid position (e.g. the default one).
-    FULL STATEMENT (false at HEAD, witness `header_replaced_by_position_zero`): the same without `hwf`.
-    Missing: `parseKeywords` must reject positions < 1 (or `doExtract` must return when `kw.MsgID <= 0`). -/
-theorem extract_sound_partial (kws : List Keyword) (hwf : ∀ kw ∈ kws, 1 ≤ kw.id) (pos : Nat → Nat → Nat) (e : E)
-    (x : Entry) (h : x ∈ extract kws pos e) :
     ∃ n callee args ell kw a s, (calls e)[n]? = some (.call callee args ell) ∧ kw ∈ kws ∧
-      fnName callee = some kw.name ∧
+      fnName callee = some kw.name ∧ args ≠ [] ∧ 1 ≤ kw.id ∧
       (kw.ctx ≤ args.length ∧ kw.id ≤ args.length ∧ kw.plural ≤ args.length) ∧
       args[kw.id - 1]? = some a ∧ strLit a = some s ∧ ¬ (s = "" ∧ litAt args kw.ctx = "") ∧
       x = entryOf kw args s (pos n kw.id) := by
-  obtain ⟨n, f, as, ell, kw, hc, hkw, hfn, _, hmax, hx⟩ := extract_sound kws pos e x h
-  rcases hx with ⟨h0, _⟩ | ⟨_, a, s, ha, hs, hne, rfl⟩
-  · have := hwf kw hkw; omega
-  · exact ⟨n, f, as, ell, kw, a, s, hc, hkw, hfn, hmax, ha, hs, hne, rfl⟩
+  obtain ⟨n, f, as, ell, kw, hc, hkw, hfn, hne, hmax, hid, a, s, ha, hs, hne', rfl⟩ := (mem_extract_iff kws pos e x).1 h
+  exact ⟨n, f, as, ell, kw, a, s, hc, hkw, hfn, hne, hid, (maxArg_le_iff kw _).1 hmax, ha, hs, hne', rfl⟩
 
-/-- "add nothing", call by call: too few arguments -/
+/-- "add nothing", call by call: a keyword without msgid position (`-keywords T:0`, `T:-1`, `X:1c,0`: accepted by
+    `parseKeywords`) — whatever the call -/
+theorem position_zero_adds_nothing (kw : Keyword) (fn : String) (args : List E) (occ : Nat → Nat)
+    (h : kw.id = 0) : doExtract kw fn args occ = [] := doExtract_id_zero fn args occ h
+
+/-- … hence nothing at all is extracted with a table of such keywords -/
+theorem position_zero_table_extracts_nothing (kws : List Keyword) (h : ∀ kw ∈ kws, kw.id = 0)
+    (pos : Nat → Nat → Nat) (e : E) : extract kws pos e = [] := by
+  apply List.eq_nil_iff_forall_not_mem.2
+  intro x hx
+  obtain ⟨_, _, _, _, kw, _, _, _, hkw, _, _, hid, _⟩ := extract_sound kws pos e x hx
+  have := h kw hkw; omega
+
+/-- … too few arguments -/
 theorem too_few_arguments_add_nothing (kw : Keyword) (fn : String) (args : List E) (occ : Nat → Nat)
     (h : args.length < kw.ctx ∨ args.length < kw.id ∨ args.length < kw.plural) : doExtract kw fn args occ = [] := by
   apply List.eq_nil_iff_forall_not_mem.2
@@ -252,25 +240,23 @@ theorem too_few_arguments_add_nothing (kw : Keyword) (fn : String) (args : List 
 
 /-- … a msgid argument that is not a string literal (a name, a concatenation, a parenthesised literal, …) -/
 theorem nonliteral_msgid_adds_nothing (kw : Keyword) (fn : String) (args : List E) (occ : Nat → Nat) (a : E)
-    (hid : 1 ≤ kw.id) (ha : args[kw.id - 1]? = some a) (hs : strLit a = none) : doExtract kw fn args occ = [] := by
+    (ha : args[kw.id - 1]? = some a) (hs : strLit a = none) : doExtract kw fn args occ = [] := by
   apply List.eq_nil_iff_forall_not_mem.2
   intro x hx
-  rcases (mem_doExtract_iff.1 hx).2.2 with ⟨h0, _⟩ | ⟨_, s, hs', _⟩
-  · omega
-  · obtain ⟨a', ha', hs''⟩ := litAt?_eq.1 hs'
-    rw [ha] at ha'; cases ha'; rw [hs] at hs''; cases hs''
+  obtain ⟨_, s, hs', _⟩ := (mem_doExtract_iff.1 hx).2.2
+  obtain ⟨a', ha', hs''⟩ := litAt?_eq.1 hs'
+  rw [ha] at ha'; cases ha'; rw [hs] at hs''; cases hs''
 
 /-- … an empty msgid literal without (non-empty literal) context -/
 theorem empty_msgid_without_context_adds_nothing (kw : Keyword) (fn : String) (args : List E) (occ : Nat → Nat)
-    (a : E) (hid : 1 ≤ kw.id) (ha : args[kw.id - 1]? = some a) (hs : strLit a = some "")
+    (a : E) (ha : args[kw.id - 1]? = some a) (hs : strLit a = some "")
     (hc : litAt args kw.ctx = "") : doExtract kw fn args occ = [] := by
   apply List.eq_nil_iff_forall_not_mem.2
   intro x hx
-  rcases (mem_doExtract_iff.1 hx).2.2 with ⟨h0, _⟩ | ⟨_, s, hs', hne, _⟩
-  · omega
-  · obtain ⟨a', ha', hs''⟩ := litAt?_eq.1 hs'
-    rw [ha] at ha'; cases ha'; rw [hs] at hs''; cases hs''
-    exact hne ⟨rfl, hc⟩
+  obtain ⟨_, s, hs', hne, _⟩ := (mem_doExtract_iff.1 hx).2.2
+  obtain ⟨a', ha', hs''⟩ := litAt?_eq.1 hs'
+  rw [ha] at ha'; cases ha'; rw [hs] at hs''; cases hs''
+  exact hne ⟨rfl, hc⟩
 
 /-- … a callee whose name is no keyword (or that has no name: a literal, an index, a call result, an operator
     expression in parentheses), and a call without arguments -/
@@ -326,17 +312,24 @@ example : ∃ n, entryOf ⟨"__", 0, 1, 0⟩ [.lit "str" "'in'"] "in" (pos0 n 1)
     (callee := .name "__") (a := .lit "str" "'in'") .refl (by decide) (by decide) (by decide) (by decide)
     rfl (by decide) (by decide)
 
--- `extract_sound_partial`: its hypotheses hold for the default table and a non-empty extraction
-example : (∀ kw ∈ defaultKws, 1 ≤ kw.id) ∧ (⟨"", "in", "", 401, true⟩ : Entry) ∈ extract defaultKws pos0 big := by
-  decide
+-- `extract_sound`: its hypothesis holds on a non-empty extraction, also with a table that mixes keywords with
+-- and without msgid position
+example : (⟨"", "in", "", 401, true⟩ : Entry) ∈ extract defaultKws pos0 big := by decide
+example : extract (⟨"T", 0, 0, 0⟩ :: ⟨"__", 1, 0, 2⟩ :: defaultKws) pos0 big = extract defaultKws pos0 big := by decide
 
 -- the "nothing" lemmas
+example : doExtract ⟨"T", 0, 0, 0⟩ "T" [.lit "str" "'hello'"] id = [] := position_zero_adds_nothing _ _ _ _ rfl
+example : doExtract ⟨"X", 1, 0, 0⟩ "X" [.lit "str" "'c'", .lit "str" "'id'"] id = [] :=
+  position_zero_adds_nothing _ _ _ _ rfl
+example : extract [⟨"T", 0, 0, 0⟩, ⟨"_xn", 1, 0, 3⟩] pos0 big = [] :=
+  position_zero_table_extracts_nothing _ (by decide) _ _
+
 example : doExtract ⟨"_xn", 1, 2, 3⟩ "_xn" [.lit "str" "'c'", .lit "str" "'id'"] id = [] :=
   too_few_arguments_add_nothing _ _ _ _ (by decide)
 example : doExtract ⟨"T", 0, 1, 0⟩ "T" [.paren (.lit "str" "'p'")] id = [] :=
-  nonliteral_msgid_adds_nothing _ _ _ _ (.paren (.lit "str" "'p'")) (by decide) rfl (by decide)
+  nonliteral_msgid_adds_nothing _ _ _ _ (.paren (.lit "str" "'p'")) rfl (by decide)
 example : doExtract ⟨"T", 0, 1, 0⟩ "T" [.lit "str" "''"] id = [] :=
-  empty_msgid_without_context_adds_nothing _ _ _ _ (.lit "str" "''") (by decide) rfl (by decide) (by decide)
+  empty_msgid_without_context_adds_nothing _ _ _ _ (.lit "str" "''") rfl (by decide) (by decide)
 -- … whereas an empty msgid WITH a context is extracted (as gettext does)
 example : doExtract ⟨"_x", 1, 2, 0⟩ "_x" [.lit "str" "'c'", .lit "str" "''"] id = [⟨"c", "", "", 2, true⟩] := by decide
 example : extractCall defaultKws (.index (.name "t") (.lit "str" "'T'")) [.lit "str" "'x'"] id = [] :=
@@ -414,8 +407,8 @@ theorem catalogue_refs_complete (es : List Entry) (k : String × String) (p : St
   · rintro ⟨e, h1, h2, h3⟩; exact ⟨⟨e, h1, h2⟩, h3⟩
   · rintro ⟨⟨e, h1, h2⟩, h3⟩; exact ⟨e, h1, h2, h3⟩
 
-/-- when every entry carries its reference (always, for keyword tables with msgid positions:
-    `extract_cited_partial`) the reference list is the list of ALL occurrences, however many -/
+/-- when every entry carries its reference (always, for extracted entries: `extract_cited`,
+    `catalogue_refs_all_occurrences`) the reference list is the list of ALL occurrences, however many -/
 theorem catalogue_refs_occ (es : List Entry) (hc : ∀ e ∈ es, e.cited = true)
     (k : String × String) (p : String) (r : List Nat) (h : (k, p, r) ∈ catalogue es) :
     r = (es.filter fun e => (e.ctx, e.id) = k).map (·.occ) ∧
@@ -435,12 +428,21 @@ theorem catalogue_row_exists (es : List Entry) (e : Entry) (he : e ∈ es) :
   rw [((catalogue_refs_complete es _ p r).1 hm).2, List.mem_flatMap]
   exact ⟨e, List.mem_filter.2 ⟨he, by simp⟩, by simp [Entry.refs, hc]⟩
 
-/-- entries extracted with a table whose keywords all have a msgid position carry their reference
-    (FULL STATEMENT without `hwf` false at HEAD: the entry of a keyword `T:0` has no `#:` comment) -/
-theorem extract_cited_partial (kws : List Keyword) (hwf : ∀ kw ∈ kws, 1 ≤ kw.id) (pos : Nat → Nat → Nat) (e : E)
+/-- every extracted entry carries its reference, for ALL keyword tables -/
+theorem extract_cited (kws : List Keyword) (pos : Nat → Nat → Nat) (e : E)
     (x : Entry) (h : x ∈ extract kws pos e) : x.cited = true := by
-  obtain ⟨_, _, _, _, _, _, _, _, _, _, _, _, _, _, rfl⟩ := extract_sound_partial kws hwf pos e x h
+  obtain ⟨_, _, _, _, _, _, _, _, _, _, _, _, _, _, _, _, rfl⟩ := extract_sound kws pos e x h
   rfl
+
+/-- … so in the catalogue of the entries of any number of trees the reference list of a row is the list of ALL
+    occurrences of its (context, msgid), in extraction order -/
+theorem catalogue_refs_all_occurrences (kws : List Keyword) (ts : List ((Nat → Nat → Nat) × E))
+    (k : String × String) (p : String) (r : List Nat) (h : (k, p, r) ∈ catalogue (extractMany kws ts)) :
+    r = ((extractMany kws ts).filter fun e => (e.ctx, e.id) = k).map (·.occ) ∧
+    r.length = (extractMany kws ts).countP (fun e => (e.ctx, e.id) = k) := by
+  refine catalogue_refs_occ _ (fun x hx => ?_) k p r h
+  obtain ⟨t, _, hx⟩ := XT.mem_extractMany_iff.1 hx
+  exact extract_cited kws t.1 t.2 x hx
 
 -- three occurrences of one msgid (different plurals), another key in between: all references kept, last plural
 example : catalogue [⟨"", "a", "", 1, true⟩, ⟨"c", "a", "", 2, true⟩, ⟨"", "a", "as", 3, true⟩, ⟨"", "a", "A", 4, true⟩]
@@ -454,13 +456,11 @@ example : (("", "a"), "A", [1, 3, 4]) ∈
 
 /-! ## the header -/
 
-/-- no entry extracted with a table whose keywords all have a msgid position has the header's key
-    (context "" and msgid "") …
-    FULL STATEMENT (false at HEAD, witness `header_replaced_by_position_zero`): the same without `hwf`. -/
-theorem header_never_replaced_partial (kws : List Keyword) (hwf : ∀ kw ∈ kws, 1 ≤ kw.id) (pos : Nat → Nat → Nat) (e : E)
+/-- no extracted entry has the header's key (context "" and msgid ""), for ALL keyword tables … -/
+theorem header_never_replaced (kws : List Keyword) (pos : Nat → Nat → Nat) (e : E)
     (x : Entry) (h : x ∈ extract kws pos e) :
     ¬ (x.ctx = "" ∧ x.id = "") ∧ x.key ≠ ("", "") ∧ x.goKey ≠ headerKey := by
-  obtain ⟨n, _, args, _, kw, _, s, _, _, _, _, _, _, hne, rfl⟩ := extract_sound_partial kws hwf pos e x h
+  obtain ⟨n, _, args, _, kw, _, s, _, _, _, _, _, _, _, _, hne, rfl⟩ := extract_sound kws pos e x h
   have h1 : ¬ ((entryOf kw args s (pos n kw.id)).ctx = "" ∧ (entryOf kw args s (pos n kw.id)).id = "") :=
     fun hh => hne ⟨hh.2, hh.1⟩
   refine ⟨h1, ?_, fun hh => h1 ((goKey_eq_headerKey_iff _).1 hh)⟩
@@ -469,15 +469,14 @@ theorem header_never_replaced_partial (kws : List Keyword) (hwf : ∀ kw ∈ kws
   exact h1 hh
 
 /-- … so `Save` keeps the header entry: the POT entry map is the header followed by the merged entries (keyed
-    by the translator's `Key()`), for the entries of any number of trees.
-    FULL STATEMENT (false at HEAD, same witness): the same without `hwf`. -/
-theorem header_kept_partial (kws : List Keyword) (hwf : ∀ kw ∈ kws, 1 ≤ kw.id) (ts : List ((Nat → Nat → Nat) × E)) :
+    by the translator's `Key()`), for the entries of any number of trees and ALL keyword tables -/
+theorem header_kept (kws : List Keyword) (ts : List ((Nat → Nat → Nat) × E)) :
     save (extractMany kws ts) = (headerKey, PotEntry.header) ::
       (mergeBy Entry.goKey (extractMany kws ts)).map (fun x => (x.1, PotEntry.msg x.2.1 x.2.2)) := by
   apply save_eq_of_no_header_key
   intro x hx
   obtain ⟨t, _, hx⟩ := XT.mem_extractMany_iff.1 hx
-  exact (header_never_replaced_partial kws hwf t.1 t.2 x hx).1
+  exact (header_never_replaced kws t.1 t.2 x hx).1
 
 /-- the translator's key `ctxt + "\x04" + msgid` separates (context, msgid) pairs whose contexts are free of
     U+0004 (all of `catalogue_*` holds verbatim for `mergeBy Entry.goKey`: the lemmas are generic in the key) -/
@@ -489,13 +488,13 @@ theorem goKey_faithful (a b : Entry) (ha : '\x04' ∉ a.ctx.toList) (hb : '\x04'
 
 example : save (extractMany defaultKws [(pos0, callT), (pos0, nothing), (fun n i => 1000 + pos0 n i, callT2)]) =
     [(headerKey, .header), ("\x04hello", .msg ⟨"", "hello", "", 1001, true⟩ [1, 1001])] := by decide
-example : (∀ kw ∈ defaultKws, 1 ≤ kw.id) ∧ extract defaultKws pos0 big ≠ [] := by decide
-
-/-- FINDING: a keyword without msgid position (accepted by `parseKeywords`: `T:0`, `T:-1`) makes any call `T(x)`
-    replace the POT header by an entry without msgid, msgstr and references -/
-theorem header_replaced_by_position_zero :
-    parseKeywords "T:0" = some [⟨"T", 0, 0, 0⟩] ∧
-    save (extract [⟨"T", 0, 0, 0⟩] pos0 (.call (.name "T") [.name "x"] false)) =
-      [(headerKey, .msg ⟨"", "", "", 0, false⟩ [])] := by decide
+example : extract defaultKws pos0 big ≠ [] := by decide
+-- the former counterexample (`-keywords T:0`, a call `T(x)`): the header stays
+example : parseKeywords "T:0" = some [⟨"T", 0, 0, 0⟩] ∧
+    save (extract [⟨"T", 0, 0, 0⟩] pos0 (.call (.name "T") [.name "x"] false)) = [(headerKey, .header)] := by decide
+-- `header_kept` with a table mixing a keyword without msgid position and the default ones
+example : save (extractMany (⟨"T", 0, 0, 0⟩ :: defaultKws) [(pos0, callT), (pos0, nothing)]) =
+    [(headerKey, .header), ("\x04hello", .msg ⟨"", "hello", "", 1, true⟩ [1])] := by
+  rw [header_kept]; decide
 
 end C20
